@@ -123,6 +123,11 @@ func runC20(w *World) {
 		keys[1] = "::ffff:10.0.2.1"
 		w.Probe("key:v4-mapped")
 	}
+	if w.Chance(1, 4, "zoned-key") {
+		// a link-local address with a zone is a key like any other
+		keys[2] = "fe80::2:3%eth0"
+		w.Probe("key:zoned")
+	}
 	isV6 := func(k int) bool { return strings.Contains(keys[k], ":") }
 	sites := make([]*Site, 3)
 	for i, k := range keys {
@@ -244,7 +249,9 @@ func runC20(w *World) {
 					if a.passive {
 						opts = append(opts, corebgp.WithPassive())
 					}
-					if w.Chance(1, 2, "laddr") {
+					// (an IPv4-mapped remote address passes AddPeer's family test with an IPv6 local
+					// address, but no dialer can connect that pair: not judged, see DESIGN 11.6)
+					if w.Chance(1, 2, "laddr") && !strings.HasPrefix(keys[key], "::ffff:") {
 						a.laddr = "10.0.0.6"
 						if isV6(key) {
 							a.laddr = "fd00::6"
@@ -450,7 +457,7 @@ func runC20(w *World) {
 			if a.passive {
 				opts = append(opts, corebgp.WithPassive())
 			}
-			if w.Chance(1, 2, "bladdr") {
+			if w.Chance(1, 2, "bladdr") && !strings.HasPrefix(keys[k], "::ffff:") {
 				a.laddr = "10.0.0.6"
 				if isV6(k) {
 					a.laddr = "fd00::6"
